@@ -212,3 +212,5 @@ Print Assumptions C13_reversible_frame.
 Print Assumptions C13_reversible_aliasing_refuted.
 Print Assumptions C13_aliasing_mutates_list.
 Print Assumptions C13_heap_refines_pure.
+From CPL Require Import gen.GenFuns GenProps.GenFunsEquivC13 GenProps.C13Src. (* source tie: gen/GenFuns.v is regenerated from ca_functions.py on every run *)
+Theorem C13_source_tie : (forall (o : rev_obj) (h : heap) (n : list Z) (c t : nat), reversible_call o (h, None) n c t = match src_reversible_call (heap_read o) (heap_write o) (rule_no o) h n c with Ok (h', v) => ((h', None), v) | Raise e => ((h, Some e), 0%Z) end) /\ (forall (R : N) (prev n : list Z) (c t : nat), reversible_rule1 R prev n c t = match src_reversible_call (@nth_error Z) (fun s k v => set_nth k v s) R prev n c with Ok (prev', v) => (prev', v) | Raise _ => (prev, 0%Z) end). Proof. exact C13_source_translation_agrees. Qed. Print Assumptions C13_source_tie.
